@@ -26,6 +26,8 @@ type lifeRound struct {
 	Drop     string   `json:"drop"`     // abrupt | graceful | none (first connection)
 	Attempts []string `json:"attempts"` // outcomes of successive connection attempts: refuse | reset | transient | auth | ok
 	Resume   string   `json:"resume"`   // accept | refuse : what the server does with <resume/>
+	// InPost: the loss of this round happens while the post-connect callback of the session that is lost is still running
+	InPost bool `json:"inpost"`
 }
 type lifeScen struct {
 	SM     bool        `json:"sm"`
@@ -442,11 +444,26 @@ func lifeRunOne(w *tr.Writer, tid int, raw json.RawMessage, c *common) error {
 		return fmt.Errorf("NewClient: %v", err)
 	}
 	var npost int32
+	var holdPost int32                 // 1: the next post-connect callback does not return before it is released
+	postGate := make(chan struct{}, 4) // releases a held callback
+	releasePost := func() {
+		select {
+		case postGate <- struct{}{}:
+		default:
+		}
+	}
 	smgr := xmpp.NewStreamManager(client, func(sd xmpp.Sender) {
 		k := int(atomic.AddInt32(&npost, 1))
 		w.Emit(tr.Rec{"ev": "post", "k": k})
 		// the application sends on the (new) connection
 		sd.Send(stanza.Message{Attrs: stanza.Attrs{Id: "pc" + strconv.Itoa(k), To: "peer@localhost", Type: stanza.MessageTypeChat}, Body: "after connect"})
+		if atomic.CompareAndSwapInt32(&holdPost, 1, 0) {
+			// a slow application callback: the session is lost while it is still running
+			select {
+			case <-postGate:
+			case <-time.After(5 * time.Second):
+			}
+		}
 	})
 
 	runRet := make(chan error, 1)
@@ -474,6 +491,7 @@ func lifeRunOne(w *tr.Writer, tid int, raw json.RawMessage, c *common) error {
 				w.Emit(tr.Rec{"ev": "runret", "err": false, "timely": false, "when": when})
 			}
 		}
+		releasePost()
 		atomic.StoreInt32(&s.closing, 1)
 		s.closeListener()
 		s.mu.Lock()
@@ -499,7 +517,13 @@ func lifeRunOne(w *tr.Writer, tid int, raw json.RawMessage, c *common) error {
 	}
 
 	for ri, rd := range sc.Rounds {
-		w.Emit(tr.Rec{"ev": "round", "i": ri + 1, "drop": rd.Drop, "attempts": rd.Attempts, "resume": rd.Resume})
+		w.Emit(tr.Rec{"ev": "round", "i": ri + 1, "drop": rd.Drop, "attempts": rd.Attempts, "resume": rd.Resume, "inpost": rd.InPost})
+		if ri+1 < len(sc.Rounds) && sc.Rounds[ri+1].InPost && sc.Rounds[ri+1].Drop != "restart" {
+			for len(postGate) > 0 {
+				<-postGate
+			}
+			atomic.StoreInt32(&holdPost, 1) // the callback of the session this round establishes is still running at the next loss
+		}
 		hasPerm := false
 		for _, a := range rd.Attempts {
 			if a == "auth" || a == "authtext" || a == "tlsalert" {
@@ -640,6 +664,9 @@ func lifeRunOne(w *tr.Writer, tid int, raw json.RawMessage, c *common) error {
 			return err
 		}
 		_ = stuck
+		if rd.InPost {
+			releasePost() // the slow callback of the lost session returns at last
+		}
 		if up {
 			// the server's message is handled and the application's message arrives
 			dl := time.Now().Add(2 * time.Second)
@@ -674,7 +701,7 @@ func lifeRunOne(w *tr.Writer, tid int, raw json.RawMessage, c *common) error {
 		}
 	}
 	if sc.StopInOutage && !stopped {
-		w.Emit(tr.Rec{"ev": "round", "i": len(sc.Rounds) + 1, "drop": "abrupt", "attempts": []string{"refuse", "refuse"}, "resume": "accept"})
+		w.Emit(tr.Rec{"ev": "round", "i": len(sc.Rounds) + 1, "drop": "abrupt", "attempts": []string{"refuse", "refuse"}, "resume": "accept", "inpost": false})
 		att0 := run.get("sm.attempt")
 		s.closeListener()
 		s.mu.Lock()
